@@ -1,34 +1,48 @@
 ---------------------------- MODULE LimiterTrace ----------------------------
 (* Trace validation for Limiter.tla, in milliseconds.  limiterdrv records, per scenario (RESET):
-     Call  c id n                      the driver is about to call Check / Allow / AllowN
+     Call  c id n nopt lim1 wms1 lim2 wms2
+                                       the driver is about to call Check / Allow / AllowN with nopt (0, 1, 2) options
+                                       WithCustomRateLimit(lim1, wms1 ms), WithCustomRateLimit(lim2, wms2 ms), in this order
      Exec  c id n now next cur exp t wasreset
                                        the server ran the script for that call at server time t with ARGV now/next and
                                        replied {cur, exp}; wasreset = the script's SET commands were executed
      Ret   c id n allowed remaining resetat
                                        what the caller got back
+   (all records carry lim / wms as well - the values of the last option or the default - for the reader and for the
+   signature class; the specification does not use them.)
    The script's reply and the caller's result must be the ones Limiter.tla computes from its own copy of the keys,
-   and every property of Limiter.tla is evaluated at every step.  The time the caller read is only known from ARGV,
+   and every property of Limiter.tla is evaluated at every step.  The limit and the window in force for a call are the
+   ones Limiter.tla derives from the option list of the Call event (InForce/Picked); the window must show up in ARGV
+   (next = now + window) and the limit in Allowed and Remaining.  The time the caller read is only known from ARGV,
    so the Read step takes it from the Exec event of the same call; the clock moves to the server time of each Exec. *)
 EXTENDS Limiter, IOUtils
 
-VARIABLES l, called
+VARIABLES l, called, copts      \* copts[c]: option list of the announced call of caller c
 TraceLog == ndJsonDeserialize(IOEnv.VERIF_TRACE)
-tvars == <<vars, l, called>>
+tvars == <<vars, l, called, copts>>
 Ev == TraceLog[l]
 Is(e) == l <= Len(TraceLog) /\ TraceLog[l].ev = e
 Step == l' = l + 1
 
-TraceInit == Init /\ l = 1 /\ called = {} /\ TLCSet(1, 1)
+TraceInit == Init /\ l = 1 /\ called = {} /\ copts = [c \in Callers |-> <<>>] /\ TLCSet(1, 1)
 
-Reset == /\ Is("RESET") /\ Step /\ called' = {}
+OptsOf(e) == IF e.nopt = 0 THEN <<>>
+             ELSE IF e.nopt = 1 THEN <<O(e.lim1, e.wms1)>>
+             ELSE <<O(e.lim1, e.wms1), O(e.lim2, e.wms2)>>
+
+Reset == /\ Is("RESET") /\ Step /\ called' = {} /\ copts' = [c \in Callers |-> <<>>]
          /\ clock' = 1
          /\ ek' = [i \in Ids |-> 0] /\ ekTtl' = [i \in Ids |-> 0] /\ ck' = [i \in Ids |-> -1] /\ ckTtl' = [i \in Ids |-> 0]
          /\ pc' = [c \in Callers |-> "idle"] /\ cid' = [c \in Callers |-> CHOOSE i \in Ids : TRUE]
          /\ cn' = [c \in Callers |-> 0] /\ cnow' = [c \in Callers |-> 0] /\ cret' = [c \in Callers |-> NoRet]
-         /\ wid' = [i \in Ids |-> 0] /\ gsum' = [i \in Ids |-> 0] /\ ncalls' = 0 /\ adm' = {} /\ seen' = {}
+         /\ clim' = [c \in Callers |-> 0] /\ cw' = [c \in Callers |-> 0]
+         /\ olim' = [c \in Callers |-> 0] /\ ow' = [c \in Callers |-> 0]
+         /\ wid' = [i \in Ids |-> 0] /\ gsum' = [i \in Ids |-> 0] /\ gadm' = [i \in Ids |-> 0]
+         /\ ncalls' = 0 /\ adm' = {} /\ seen' = {}
 
 TCall == /\ Is("Call") /\ Step /\ pc[Ev.c] = "idle" /\ Ev.c \notin called
-         /\ called' = called \cup {Ev.c} /\ UNCHANGED vars
+         /\ Ev.nopt \in 0..2
+         /\ called' = called \cup {Ev.c} /\ copts' = [copts EXCEPT ![Ev.c] = OptsOf(Ev)] /\ UNCHANGED vars
 
 \* silent: the caller read its clock (the value shows up in ARGV of its Exec event)
 RECURSIVE ExecOf(_, _)
@@ -37,23 +51,24 @@ ExecOf(c, m) == IF m > Len(TraceLog) \/ TraceLog[m].ev = "RESET" THEN 0
 SRead(c) == /\ c \in called /\ pc[c] = "idle"
             /\ LET m == ExecOf(c, l) IN
                  /\ m # 0
-                 /\ ReadAt(c, TraceLog[m].id, TraceLog[m].n, TraceLog[m].now)
-            /\ UNCHANGED <<l, called>>
+                 /\ ReadAt(c, TraceLog[m].id, TraceLog[m].n, TraceLog[m].now, copts[c])
+            /\ UNCHANGED <<l, called, copts>>
 
 \* silent: the clock reaches the server time of the next script execution
 STick == /\ Is("Exec") /\ clock < Ev.t /\ clock' = Ev.t
-         /\ UNCHANGED <<ek, ekTtl, ck, ckTtl, pc, cid, cn, cnow, cret, wid, gsum, ncalls, adm, seen, l, called>>
+         /\ UNCHANGED <<ek, ekTtl, ck, ckTtl, pc, cid, cn, cnow, cret, clim, cw, olim, ow, wid, gsum, gadm, ncalls, adm, seen,
+                        l, called, copts>>
 
-TExec == /\ Is("Exec") /\ Step /\ clock = Ev.t /\ UNCHANGED called
+TExec == /\ Is("Exec") /\ Step /\ clock = Ev.t /\ UNCHANGED <<called, copts>>
          /\ pc[Ev.c] = "read" /\ cid[Ev.c] = Ev.id /\ cn[Ev.c] = Ev.n /\ cnow[Ev.c] = Ev.now
-         /\ Ev.now <= Ev.t /\ Ev.next = Ev.now + W
+         /\ Ev.now <= Ev.t /\ Ev.next = Ev.now + ow[Ev.c]        \* the window in force for this call reached ARGV
          /\ Script(Ev.c)
          /\ cret'[Ev.c].cur = Ev.cur /\ cret'[Ev.c].exp = Ev.exp /\ cret'[Ev.c].wasreset = Ev.wasreset
 
 TRet == /\ Is("Ret") /\ Step /\ pc[Ev.c] = "ran"
         /\ LET o == ResultOf(Ev.c) IN
              o.allowed = Ev.allowed /\ o.remaining = Ev.remaining /\ o.reset = Ev.resetat /\ o.id = Ev.id /\ o.n = Ev.n
-        /\ Ret(Ev.c) /\ called' = called \ {Ev.c}
+        /\ Ret(Ev.c) /\ called' = called \ {Ev.c} /\ copts' = [copts EXCEPT ![Ev.c] = <<>>]
 
 TraceNext == Reset \/ TCall \/ TExec \/ TRet \/ STick \/ \E c \in Callers : SRead(c)
 TraceSpec == TraceInit /\ [][TraceNext]_tvars
